@@ -848,7 +848,9 @@ rt_prop("C07", ["task", "cancel", "comb"],
         "RExec, RRun: every leaf id and join-handle id mentioned by any stored or queued task of any command exists — through one "
         "poll of ANY block, also blocks hosting commands, by a single grind call over pollBlock, then executor, knot, command "
         "building, shell): for ANY command under the direct host after ANY history, a host-free task that run_task discards was "
-        "dead. NO STRANDED TASK over whole runs — stored_task_queued_or_parked, settled_tasks_are_parked (global invariant GInv, "
+        "dead; evict_sound_reachable_core / _bridge: the same in every state of a Core running ANY app and behind the Bridge "
+        "(invariant WFC: commands' tasks, the executor's legacy tasks and its spawn queue in range; Lemmas/RCore.lean), "
+        "serials_fresh_bridge. NO STRANDED TASK over whole runs — stored_task_queued_or_parked, settled_tasks_are_parked (global invariant GInv, "
         "Lemmas/PFrame, WPoll, Park, GPark): for every host-free task program under the direct host after every history, every "
         "task in the slab is on the ready queue, aborted through its join handle, or LIVE-PARKED — the waker of its last poll is "
         "registered at every request leaf, stream leaf and join-handle queue it is suspended at; the proof combines K2 (the polled "
